@@ -207,22 +207,29 @@ theorem eval_eq_compile_run (fuel : Nat) (toks : List Tok) (s : Sess) (idle : Id
           simp only [List.length_append, List.length_cons] at this
           omega
       subst ht2
+      -- both sides forget what the build logged (`forget_build_log`); the machine from here on is `M`
+      have e1 : forgetBuildLog s.m { s2.m with ctx := swp (s.contextOpen .compile).m.ctx s2.m.ctx } =
+          { forgetBuildLog s.m s2.m with ctx := swp (s.contextOpen .compile).m.ctx s2.m.ctx } := rfl
+      simp only [e1]
+      have hMc : (forgetBuildLog s.m s2.m).ctx = s2.m.ctx := rfl
+      have wX : WF (forgetBuildLog s.m s2.m) := ⟨e.wf.ds, e.wf.rs, e.wf.ls, e.wf.ss⟩
+      rw [← hMc] at hv hmode2
+      generalize forgetBuildLog s.m s2.m = M at hv hmode2 wX ⊢
       have hmC : (swp (s.contextOpen .compile).m.ctx s2.m.ctx).mode = .compile := by simp [swp, Sess.contextOpen]
       simp only [Sess.contextClose, hnest2, hmode2, hmC, rest.mode, if_true]
       generalize hu : List.drop (s2.constUndo.length - s.constUndo.length) s2.constUndo = u
-      have hn : normC ({ s2 with nested := s.nested, constUndo := u } : Sess).m =
-          normC ({ s2 with m := { s2.m with ctx := s.m.ctx }, nested := s.nested, constUndo := u } : Sess).m :=
-        (NormC.of_ctx s2.m s.m.ctx hv).symm
+      have hn : normC ({ s2 with m := M, nested := s.nested, constUndo := u } : Sess).m =
+          normC ({ s2 with m := { M with ctx := s.m.ctx }, nested := s.nested, constUndo := u } : Sess).m :=
+        (NormC.of_ctx M s.m.ctx hv).symm
       have hr := runS_normC _ _ hn fuel
-      have wX : WF s2.m := e.wf
-      have wY : WF { s2.m with ctx := s.m.ctx } := by
+      have wY : WF { M with ctx := s.m.ctx } := by
         obtain ⟨_, v2, _, v4, v5, v6⟩ := hv
         exact ⟨by simp only; rw [v4]; exact wX.ds, by simp only; rw [v5]; exact wX.rs, by simp only; rw [v6]; exact wX.ls,
           by simp only; rw [v2]; exact wX.ss⟩
       revert hr
-      cases Sess.runS fuel { s2 with nested := s.nested, constUndo := u } with
+      cases Sess.runS fuel { s2 with m := M, nested := s.nested, constUndo := u } with
       | ok x' =>
-        cases Sess.runS fuel { s2 with m := { s2.m with ctx := s.m.ctx }, nested := s.nested, constUndo := u } with
+        cases Sess.runS fuel { s2 with m := { M with ctx := s.m.ctx }, nested := s.nested, constUndo := u } with
         | ok y' =>
           rintro ⟨g1, g2, g3, g4, g5⟩
           simp only [EvalR]
@@ -232,9 +239,9 @@ theorem eval_eq_compile_run (fuel : Nat) (toks : List Tok) (s : Sess) (idle : Id
           have hv' : s.m.ctx.ssPtr = x'.m.ctx.ssPtr ∧ s.m.ctx.mode = x'.m.ctx.mode ∧ s.m.ctx.dsLen = x'.m.ctx.dsLen ∧
               s.m.ctx.rsLen = x'.m.ctx.rsLen ∧ s.m.ctx.lsLen = x'.m.ctx.lsLen := by
             have f := fun (g : Ctx → Nat) (hg : ∀ c : Ctx, g c = g c.marks) => by
-              have : g x'.m.ctx = g s2.m.ctx := by rw [hg x'.m.ctx, hg s2.m.ctx, mx]
+              have : g x'.m.ctx = g M.ctx := by rw [hg x'.m.ctx, hg M.ctx, mx]
               exact this
-            have fm : x'.m.ctx.mode = s2.m.ctx.mode := by
+            have fm : x'.m.ctx.mode = M.ctx.mode := by
               have := congrArg Ctx.mode mx; simpa [Ctx.marks] using this
             obtain ⟨_, v2, v3, v4, v5, v6⟩ := hv
             exact ⟨by rw [f Ctx.ssPtr (fun _ => rfl)]; exact v2, by rw [fm]; exact v3, by rw [f Ctx.dsLen (fun _ => rfl)]; exact v4,
@@ -247,7 +254,7 @@ theorem eval_eq_compile_run (fuel : Nat) (toks : List Tok) (s : Sess) (idle : Id
         | unsupported _ => intro hr; exact hr.elim
         | timeout => intro hr; exact hr.elim
       | err ex x' =>
-        cases Sess.runS fuel { s2 with m := { s2.m with ctx := s.m.ctx }, nested := s.nested, constUndo := u } with
+        cases Sess.runS fuel { s2 with m := { M with ctx := s.m.ctx }, nested := s.nested, constUndo := u } with
         | err ey y' =>
           rintro ⟨g0, g1, g2, g3⟩
           refine ⟨g0, ?_⟩
@@ -259,21 +266,21 @@ theorem eval_eq_compile_run (fuel : Nat) (toks : List Tok) (s : Sess) (idle : Id
         | unsupported _ => intro hr; exact hr.elim
         | timeout => intro hr; exact hr.elim
       | panic px x' =>
-        cases Sess.runS fuel { s2 with m := { s2.m with ctx := s.m.ctx }, nested := s.nested, constUndo := u } with
+        cases Sess.runS fuel { s2 with m := { M with ctx := s.m.ctx }, nested := s.nested, constUndo := u } with
         | panic py y' => rintro ⟨g0, _⟩; exact g0
         | ok _ => intro hr; exact hr.elim
         | err _ _ => intro hr; exact hr.elim
         | unsupported _ => intro hr; exact hr.elim
         | timeout => intro hr; exact hr.elim
       | unsupported ux =>
-        cases Sess.runS fuel { s2 with m := { s2.m with ctx := s.m.ctx }, nested := s.nested, constUndo := u } with
+        cases Sess.runS fuel { s2 with m := { M with ctx := s.m.ctx }, nested := s.nested, constUndo := u } with
         | unsupported uy => intro hr; exact hr
         | ok _ => intro hr; exact hr.elim
         | err _ _ => intro hr; exact hr.elim
         | panic _ _ => intro hr; exact hr.elim
         | timeout => intro hr; exact hr.elim
       | timeout =>
-        cases Sess.runS fuel { s2 with m := { s2.m with ctx := s.m.ctx }, nested := s.nested, constUndo := u } with
+        cases Sess.runS fuel { s2 with m := { M with ctx := s.m.ctx }, nested := s.nested, constUndo := u } with
         | timeout => intro _; trivial
         | ok _ => intro hr; exact hr.elim
         | err _ _ => intro hr; exact hr.elim
